@@ -84,15 +84,21 @@ def MetaCovers : Prop :=
       (app.param a).addr ∈ refsOf app.apropos base ∨
       ∃ m ∈ (app.param first).anc, a ∈ (app.param m).anc ∧ (app.param m).addr ∈ refsOf app.apropos base)
 
+/-- the ancestors of every parameter form a chain: two ports of which neither depends on the other never
+    share a dependant.  NOT a hypothesis of any theorem (it was one of `WF` until the commutation of
+    independent writes was proved by confluence, `App.setParam_commute`); kept to state, in the non-vacuity
+    examples, that applications violating it are covered. -/
+def AncChain : Prop :=
+  ∀ i, i < app.size → ∀ a ∈ (app.param i).anc, ∀ b ∈ (app.param i).anc,
+      a = b ∨ a ∈ (app.param b).anc ∨ b ∈ (app.param a).anc
+
 /-- well-formed application descriptions (all clauses except the two about `apropos`
-    are decidable for a concrete `App`) -/
+    are decidable for a concrete `App`).  The dependency order may be any finite strict partial order
+    (`anc_lt`, `anc_closed`): in particular two independent ports may share dependants. -/
 structure WF : Prop where
   addr_nodup : (app.params.map (·.addr)).Nodup
   anc_lt : ∀ i, i < app.size → ∀ a ∈ (app.param i).anc, a < i
   anc_closed : ∀ i, i < app.size → ∀ a ∈ (app.param i).anc, ∀ b ∈ (app.param a).anc, b ∈ (app.param i).anc
-  /-- the ancestors of a parameter form a chain: two independent ports never share a dependant -/
-  anc_chain : ∀ i, i < app.size → ∀ a ∈ (app.param i).anc, ∀ b ∈ (app.param i).anc,
-      a = b ∨ a ∈ (app.param b).anc ∨ b ∈ (app.param a).anc
   guards_anc : ∀ i, i < app.size → ∀ g ∈ (app.param i).guards, g.1 ∈ (app.param i).anc
   preset_anc : ∀ i, i < app.size → ∀ par tbl fb, (app.param i).dflt = .preset par tbl fb → par ∈ (app.param i).anc
   kind_ok : ∀ i, i < app.size → KindOK (app.param i).kind
@@ -103,15 +109,16 @@ structure WF : Prop where
   /-- the walk visits every parameter instance exactly once -/
   walk_tiles : ∃ rw : List Item, rw.Perm app.walk ∧ Tiling 0 rw app.size
   item_addr_nodup : (app.walk.map app.itemAddr).Nodup
-  /-- an array port: element `k` has address `base<k>`, the elements share their guards, have
-      constant defaults and nothing depends on them; the base address is not a parameter's -/
+  /-- an array port: element `k` has address `base<k>`, the elements share their guards and their
+      ancestors (one port, one set of metadata) and nothing depends on them; the base address is not a
+      parameter's.  The defaults of the elements are arbitrary: constant or selected by a preset port
+      (`rDefaultDepends` on an `rArray…`), one value per element. -/
   array_ok : ∀ base first len, Item.array base first len ∈ app.walk →
       app.findAddr base = none ∧
       ∀ k, k < len →
         (app.param (first + k)).addr = base ++ natDigits k ∧
         (app.param (first + k)).guards = (app.param first).guards ∧
         (app.param (first + k)).anc = (app.param first).anc ∧
-        (∃ v, (app.param (first + k)).dflt = .const v) ∧
         ∀ j, j < app.size → first + k ∉ (app.param j).anc
 
 /-- invariant of reachable states: every value is one the callback stores, and a
